@@ -49,3 +49,27 @@ def parse_img_reply(rep):
 
 def strip_hex(line, maxlen=200):
     return line if len(line) <= maxlen else line[:maxlen] + "…"
+
+
+def relevant_hits(hits, flags, known, classes, last):
+    """Oracle hits that a report may name as the failing input.  hits: [(line, why, cls)].
+    A hit on a line the model flagged with a *listed* finding of the same class is that known
+    defect, not news; everything else counts — in particular a hit at `last` (the line where
+    implementation and model disagree) always does."""
+    out = []
+    for i, why, cls in hits:
+        fl = flags[i] if i < len(flags) else []
+        covered = any(f in known and classes.get(f, cls) == cls for f in fl)
+        if i == last or not covered:
+            out.append((i, why, cls))
+    return out
+
+
+def first_relevant(rep, scan, known, classes):
+    """for report_mismatch: the oracle evaluated on a case prefix that ends at the mismatching line"""
+    hits = scan(rep["ops"], rep["impl"])
+    last = len(rep["ops"]) - 1
+    rel = relevant_hits(hits, rep.get("flags", []), known, classes, last)
+    # prefer the mismatching line itself
+    rel.sort(key=lambda h: (h[0] != last, h[0]))
+    return rel[0][1] if rel else None
